@@ -87,6 +87,7 @@ type c14Case struct {
 		ErrMode  string `json:"errMode"`
 		Gate     string `json:"gate"`
 		Opt      string `json:"opt"`
+		Primer   string `json:"primer"`
 	} `json:"cfg"`
 	Script []c14Call `json:"script"`
 }
@@ -212,7 +213,18 @@ func c14Run(c *Case) []any {
 			w.Write([]byte("X"))
 		}))
 	}
+	priming := false
 	handler := http.HandlerFunc(func(w http.ResponseWriter, _ *http.Request) {
+		if priming {
+			switch tc.Cfg.Primer {
+			case "p204":
+				w.WriteHeader(204)
+			case "pbadresp":
+				w.Header().Set("Content-Type", "application/json")
+				w.Write([]byte("oops"))
+			}
+			return
+		}
 		log = append(log, map[string]any{"ev": "Enter"})
 		// like io.CopyBuffer: every piece goes through one reused buffer (io.Writer implementations must not retain p)
 		chunk := make([]byte, 64)
@@ -259,6 +271,17 @@ func c14Run(c *Case) []any {
 		gate = vh
 	} else {
 		gate = openapi3filter.NewValidator(c14Router(), opts...).Middleware(handler)
+	}
+	if tc.Cfg.Primer != "" && tc.Cfg.Primer != "none" {
+		// an earlier request on the same middleware instance; what it did is not part of this run's trace
+		priming = true
+		class := "valid_post"
+		if tc.Cfg.Primer == "pbadreq" {
+			class = "inv_body"
+		}
+		guard(func() { gate.ServeHTTP(httptest.NewRecorder(), c14Request(class)) })
+		priming = false
+		log = log[:1]
 	}
 	panicked, msg := guard(func() { gate.ServeHTTP(sink, c14Request(tc.Cfg.ReqClass)) })
 	end := map[string]any{"ev": "end", "panic": panicked, "finalCt": c14AbsCT(client.h)}
